@@ -125,7 +125,7 @@ var c11Ops = []c11Op{
 		res := errSig(validator.Validate(s, doc, c11CallerRules...))
 		if after := fmt.Sprintf("%q %q", c11CallerRules[0].Name, c11CallerRules[1].Name); after != before {
 			c11CallerRules[1].Name = ""
-			panic("Validate changed the caller's rule list: names " + before + " became " + after)
+			return "VIOLATION: Validate changed the caller's rule list: names " + before + " became " + after
 		}
 		return res
 	}},
@@ -567,6 +567,12 @@ func c11History(c *explore.Ctx, s *explore.SubStats, ops []int, states map[strin
 	mon := &c11Monitor{ow: ow}
 	mon.install()
 	defer c11Uninstall()
+	for o, res := range alone {
+		if strings.HasPrefix(res, "VIOLATION: ") {
+			bad("write/caller-owned op="+c11Ops[o].Name, strings.TrimPrefix(res, "VIOLATION: "), "", "")
+			return
+		}
+	}
 	for _, d := range c11FirstRunDrift {
 		bad("drift/global first-run "+d, "the first run of the operation in this process changed package-level variable(s) of the library ("+d+"): state shared by every goroutine and every schema of the process", "", "")
 	}
@@ -585,6 +591,10 @@ func c11History(c *explore.Ctx, s *explore.SubStats, ops []int, states map[strin
 		}
 		if len(mon.hits) > 0 {
 			bad("write site="+mon.hits[0]+" op="+c11Ops[o].Name, fmt.Sprintf("%s writes into memory owned by the loaded schema at %s (%d such writes)", c11Ops[o].Name, mon.hits[0], len(mon.hits)), "", "")
+			return
+		}
+		if strings.HasPrefix(res, "VIOLATION: ") {
+			bad("write/caller-owned op="+c11Ops[o].Name, strings.TrimPrefix(res, "VIOLATION: "), "", "")
 			return
 		}
 		if res != alone[o] {
